@@ -179,6 +179,16 @@ def check_views(h, jd, rng):
                     f"model '{name}': curv differs from v^T H v")
 
 
+def rep_mag(q, xpt, scale):
+    """Magnitude of the REPRESENTATION of a model's Hessian (explicit part
+    plus the individual implicit rank-one terms, which may cancel): rounding
+    errors of an update are relative to it, not to the net Hessian."""
+    a = np.abs(np.asarray(q._e_hess, dtype=float))
+    a = a + (np.abs(xpt) * np.abs(np.asarray(q._i_hess, dtype=float))) \
+        @ np.abs(xpt).T
+    return float(np.max(a, initial=0.0)) * scale ** 2
+
+
 def fmodel(q, xpt, scale):
     """Float (c, g*scale, H*scale^2) of a Quadratic relative to the base."""
     h = np.array(q._e_hess, dtype=float, copy=True)
@@ -232,6 +242,8 @@ def run_long(case):
             cond0, scale0 = cond_scale(itp.xpt)
             before = [fmodel(q, itp.xpt, scale0)
                       for _, q, _ in all_models(h.models)]
+            reps = [rep_mag(q, itp.xpt, scale0)
+                    for _, q, _ in all_models(h.models)]
             try:
                 h.models.update_interpolation(k, x_new, fv, cub, ceq)
             except np.linalg.LinAlgError:
@@ -241,7 +253,8 @@ def run_long(case):
             if not cond < 1e8 or not cond0 < 1e8:
                 jd.count("skipped_singular")
                 continue
-            for (name, q, _), m0, d in zip(all_models(h.models), before, dd):
+            for (name, q, _), m0, d, rp in zip(all_models(h.models), before,
+                                               dd, reps):
                 rhs = np.zeros(h.npt)
                 rhs[k] = d
                 try:
@@ -258,7 +271,8 @@ def run_long(case):
                 zmag = max(abs(up[0]), float(np.max(np.abs(up[1]))),
                            float(np.max(np.abs(up[2]))), abs(d))
                 old = max(abs(m0s[0]), float(np.max(np.abs(m0s[1]))),
-                          float(np.max(np.abs(m0s[2]))))
+                          float(np.max(np.abs(m0s[2]))), rp * r0 ** 2,
+                          rep_mag(q, itp.xpt, scale))
                 jd.count("long_step_checks")
                 jd.zone("update_not_lfn_step", err,
                         nn * EPS * (cond * zmag + old),
@@ -348,6 +362,8 @@ def run_case(case):
             vals_new = [fv] + list(cub) + list(ceq)
             before = [exact.model_of(q, itp.xpt)
                       for _, q, _ in all_models(h.models)]
+            reps = [rep_mag(q, itp.xpt, cond_scale(itp.xpt)[1])
+                    for _, q, _ in all_models(h.models)]
             dd = [float(vals_new[0] - h.models.fun(x_new))]
             dd += [float(c_ - m_) for c_, m_ in zip(cub,
                                                     h.models.cub(x_new))]
@@ -363,7 +379,8 @@ def run_case(case):
                 jd.count("skipped_singular")
                 continue
             X = exact.points_of(itp.xpt)
-            for (name, q, _), m0, d in zip(all_models(h.models), before, dd):
+            for (name, q, _), m0, d, rp in zip(all_models(h.models), before,
+                                               dd, reps):
                 rhs = [Fr(0)] * h.npt
                 rhs[k] = Fr(d)
                 up = exact.lfn(X, rhs)
@@ -373,7 +390,8 @@ def run_case(case):
                 m1 = exact.model_of(q, itp.xpt)
                 err = scaled_diff(m1, m0, scale, up)
                 zmag = max(scaled_mag(up, scale), abs(d))
-                old = scaled_mag(m0, scale)
+                old = max(scaled_mag(m0, scale), rp,
+                          rep_mag(q, itp.xpt, scale))
                 jd.count("one_step_checks")
                 if scaled_mag(m1, scale) > 0 and fmax(
                         v for r in m1[2] for v in r) > 0:
